@@ -84,9 +84,12 @@ CLAIMED = {
     text="Verus proves (1) validate() returns Ok exactly on data satisfying tz_wf (every transition's type index has a type, types non-empty "
          "whenever a lookup can index them, rule months 1..=12, weeks 1..=5, days 0..=6, J 1..=365, n 0..=364), for tables of any length; (2) under "
          "tz_wf every index, unwrap, subtraction and conversion in to_local_time_type and the rule functions is safe for every timestamp in "
-         "range (no precondition on sortedness). from_tzif ends in validate()? so nothing it returns violates tz_wf. NOT covered: panic-freedom "
-         "of the byte/footer parser itself before that point (Cursor, Header, DataBlock, from_tz_string).",
-    note=TB + "lookups are proved for timestamps whose UTC year is within +-5_879_500; that from_tzif calls validate on every Ok path is by reading its last statements (the function is outside Verus); Offset::resolve's fallback is outside (cfg(unix), fs).", ref="5 C19"),
+         "range (no precondition on sortedness). from_tzif ends in validate()? so nothing it returns violates tz_wf. (3) Parser pieces that "
+         "Verus can read are panic-free for every input: all 8 Cursor methods (split_at, indexing), DataBlock::parse (count arithmetic) and "
+         "the footer field parsers remove_designation, parse_hms, parse_tz_string_offset(_extended), parse_tz_string_rule - every "
+         "expect(BUG_MSG) in them is a discharged obligation. NOT covered: Header::parse (slice patterns), the body of from_tzif "
+         "(chunks_exact/zip, from_be_bytes conversions) and from_tz_string (str functions).",
+    note=TB + "lookups are proved for timestamps whose UTC year is within +-5_879_500; that from_tzif calls validate on every Ok path is by reading its last statements (the function is outside Verus); parse_int is assumed not to panic (its input is cut from a checked UTF-8 string at ASCII bytes); 64-bit usize; Offset::resolve's fallback is outside (cfg(unix), fs).", ref="5 C19"),
  'C11': dict(
     category='other', engine='kani',
     technique='per-row loop-free Kani/CBMC harnesses over full-domain symbolic values on the real format_date_part / format_time_part, renderers and calendar getters replaced by recording stubs (-Z stubbing)',
